@@ -46,12 +46,11 @@ theorem top_is_max (h : Heap) (hi : Inv h) (x : Task) (hx : h.t.root? = some x) 
 
 /-! ## heap_insert -/
 
-theorem insert_t (h : Heap) (e : Task) (hs : Shape h.size h.t) :
+theorem insert_t (h : Heap) (e : Task) (_hs : Shape h.size h.t) :
     (insert h e).t = (insPath e (pathOf (h.size + 1)) h.t).1 := by
   unfold insert
   by_cases h1 : h.size + 1 = 1
   · have h0 : h.size = 0 := by omega
-    rw [h0] at hs
     simp only [h1, if_true]
     rw [pathOf_one]
     rfl
